@@ -303,6 +303,7 @@ STD_ENUMS = {
     "Result": ["Ok", "Err"], "Option": ["None", "Some"], "ControlFlow": ["Continue", "Break"],
     "Cow": ["Borrowed", "Owned"], "Ordering": ["Less", "Equal", "Greater"],
     "SeekFrom": ["Start", "End", "Current", "Data", "Hole"],
+    "Component": ["Prefix", "RootDir", "CurDir", "ParentDir", "Normal"],
 }
 
 
